@@ -4,6 +4,7 @@ import LexVerif.Proof.RoundTripFlags
 import LexVerif.Proof.RoundTripSpecial
 import LexVerif.Proof.RoundTripValue
 import LexVerif.Proof.RoundTripModel
+import LexVerif.Proof.RoundTripSepFree
 import LexVerif.Props.C18
 /-!
 # C08 — what lexical writes, lexical parses back (property theorems)
@@ -189,6 +190,14 @@ theorem roundtrip_float_exact_value (feats : Features) (fmt : Format) (wo : WOpt
           (10 : ℚ) ^ (sci + (if (truncateAndRound ds wo).2 then 1 else 0) + 1 - ((truncateAndRound ds wo).1.length : Int)) := by
   obtain ⟨l, h1, h2, h3⟩ := roundtrip_float_shape feats fmt wo po ds sci neg hv h10 ha hin hclear
   exact ⟨l, h1, h2, digitsForm_value _ _ _ _ _ h3⟩
+
+/-- the writer's bytes never contain the format's digit-separator byte: they are in the scope of `Spec.Grammar`
+(and of C12, which relates the grammar to the parser model on separator-free inputs) -/
+theorem roundtrip_float_separatorFree (feats : Features) (fmt : Format) (wo : WOpts) (po : POpts) (ds : List Nat)
+    (sci : Int) (neg : Bool) (hv : FormatValid feats (unpack fmt.raw)) (h10 : fmt.mantissaRadix = 10)
+    (ha : OptionsAgree feats fmt wo po) (hin : WriterInput ds sci) :
+    separatorFree fmt (writerSign feats fmt neg ++ writeDecimal fmt feats ds sci wo) = true :=
+  writeDecimal_separatorFree feats fmt wo po ds sci neg hv h10 ha.dp ha.exp ha.punctuation ha.nonZero.1 hin
 
 /-- the list-level function of `Model.FormatDecimal` is the non-compact back-end with a decimal exponent radix -/
 theorem writeDecimal_eq_writeDigits (feats : Features) (fmt : Format) (ds : List Nat) (sci : Int) (wo : WOpts)
